@@ -4,7 +4,7 @@ import re
 from .. import builtins as B
 from .. import rettags as RT
 from ..analysis import (Branches, CallGraph, Origins, edge_dominates, edges_dominate, fmt_terms, reach_avoiding,
-                        term_mentions)
+                        region_always_errs, term_mentions)
 from ..decision import Undecided, Walker
 from ..leaf import KINDS, check_accessors, kind_walker
 
@@ -558,7 +558,7 @@ def check_unknown_function(ctx, lib):
             ok = len(errs) == 1 and errs[0]["rv"]["variant"] == "UnknownFunction" and \
                 all(term_mentions(x, lambda y: y == ("field", ("param", 2), "Function.name")) for x in o.of_operand(errs[0]["rv"]["ops"][0]))
             ev = [x for x in nreg if b.blocks[x]["term"]["k"] == "call" and b.blocks[x]["term"]["callee"] == "functions::Function::evaluate"]
-            ctx.check(ok and not ev, rule, "none-branch", "a missing function yields UnknownFunction(name) and nothing is invoked", b.span)
+            ctx.check(ok and not ev and region_always_errs(b, nreg), rule, "none-branch", "a missing function always yields UnknownFunction(name) and nothing is invoked", b.span)
             sreg = {x for x in reach_avoiding(b, some_t) if edge_dominates(b, (blk, some_t), x)}
             ev = [x for x in sreg if b.blocks[x]["term"]["k"] == "call" and b.blocks[x]["term"]["callee"] == "functions::Function::evaluate"]
             ctx.check(len(ev) == 1, rule, "some-branch", "a found function is invoked exactly once", b.span)
